@@ -103,9 +103,11 @@ class CoqError(Exception):
     pass
 
 
-def coqc(vfile: Path, timeout: int = 600, cwd: Path | None = None) -> tuple[int, str]:
+def coqc(vfile: Path, timeout: int = 600, cwd: Path | None = None, stdout_only: bool = False) -> tuple[int, str]:
     cmd = ["timeout", str(timeout), "coqc", "-Q", str(COQ), "RV", str(vfile)]
     p = subprocess.run(cmd, capture_output=True, text=True, cwd=str(cwd or vfile.parent))
+    if stdout_only and p.returncode == 0:
+        return 0, p.stdout          # warnings go to stderr; Print Assumptions answers to stdout
     return p.returncode, p.stdout + p.stderr
 
 
@@ -155,7 +157,7 @@ def coq_bad_indices(prop: str, name: str, header: str, groups: list[tuple[str, s
     pieces = []   # (label, group, offset, ty, chk, cases)
     for g, ty, chk, cases in groups:
         if not cases:
-            pieces.append((f"{g}_c0", g, 0, ty, chk, []))
+            raise CoqError(f"correspondence group {g} has no case: nothing would be compared (generator or driver problem)")
         for k, off in enumerate(range(0, len(cases), chunk)):
             pieces.append((f"{g}_c{k}", g, off, ty, chk, cases[off:off + chunk]))
     files, cur, cur_n = [], [], 0
@@ -288,40 +290,50 @@ def print_assumptions(prop_file: str) -> tuple[bool, dict[str, list[str]], str]:
     src = strip_comments(f.read_text())
     thms = re.findall(r"Print Assumptions\s+([\w.']+)\s*\.", src)
     with Lock():
-        rc, out = coqc(f, timeout=900, cwd=COQ)
+        rc, out = coqc(f, timeout=900, cwd=COQ, stdout_only=True)
     if rc != 0:
         return False, {}, out
     blocks: dict[str, list[str]] = {}
-    # coqc prints either "Closed under the global context" or "Axioms:\n name : type ..."
-    chunks = re.split(r"(?=Closed under the global context|^Axioms:)", out, flags=re.M)
-    chunks = [c for c in chunks if c.startswith("Closed under") or c.startswith("Axioms:")]
+    # coqc prints, per Print Assumptions, either "Closed under the global context" or "Axioms:" followed by
+    # entries whose NAME starts at column 0 (the type follows on the same line or on indented lines)
+    chunks = re.split(r"(?=^Closed under the global context|^Axioms:|^Section Variables:)", out, flags=re.M)
+    chunks = [c for c in chunks if c.startswith("Closed under") or c.startswith("Axioms:") or c.startswith("Section Variables:")]
+    if len(chunks) != len(thms):
+        return False, {}, (f"Print Assumptions: {len(thms)} requests but {len(chunks)} answers (a Print Assumptions inside a "
+                           f"Section, or an unparsed block)\n" + out[-3000:])
     for name, c in zip(thms, chunks):
         if c.startswith("Closed"):
             blocks[name] = []
+        elif c.startswith("Section Variables:"):
+            blocks[name] = ["<section-variables>"]
         else:
-            blocks[name] = re.findall(r"^([A-Za-z_][\w.']*)\s*:", c, flags=re.M)
-    for name in thms:
-        blocks.setdefault(name, ["<unparsed>"])
+            names = []
+            for line in c.splitlines()[1:]:
+                m = re.match(r"^([A-Za-z_][\w.']*)(\s*:.*)?$", line)
+                if m:
+                    names.append(m.group(1))
+            blocks[name] = names or ["<unparsed>"]
     return True, blocks, out
 
 
-STDLIB_AXIOM_PREFIXES = (
-    "ClassicalDedekindReals.", "FunctionalExtensionality.", "Classical_Prop.", "ClassicalEpsilon.",
-    "ProofIrrelevance.", "Eqdep.", "JMeq.", "ChoiceFacts.", "Description.", "IndefiniteDescription.",
-    "PropExtensionality.", "ClassicalFacts.", "Coq.", "sig_forall_dec", "sig_not_dec", "functional_extensionality_dep",
-    "classic", "constructive_indefinite_description", "proof_irrelevance", "eq_rect_eq", "JMeq_eq",
-    "propositional_extensionality", "Rdefinitions.", "Raxioms.", "PrimFloat.", "Uint63.", "PrimInt63.", "FloatOps.",
-    "Float", "Int63", "Sint63", "SpecFloat", "FloatAxioms.", "Uint63Axioms.", "Reals.", "Epsilon.", "excluded_middle",
-    "dependent_unique_choice", "relational_choice", "epsilon_statement", "Interval", "CyclicAxioms", "Cyclic63",
+# Axioms the standard library itself declares (module-qualified as Print Assumptions prints them).  Anything
+# else -- in particular an unqualified name, which is how an axiom declared in this development would print --
+# makes the check fail.
+STDLIB_AXIOM_MODULES = (
+    "ClassicalDedekindReals.", "FunctionalExtensionality.", "Classical_Prop.", "ClassicalEpsilon.", "ClassicalFacts.",
+    "ProofIrrelevance.", "Eqdep.", "JMeq.", "ChoiceFacts.", "Description.", "IndefiniteDescription.", "Epsilon.",
+    "PropExtensionality.", "PropExtensionalityFacts.", "ClassicalChoice.", "ClassicalDescription.", "ClassicalUniqueChoice.",
+    "RelationalChoice.", "Raxioms.", "Rdefinitions.", "Diaconescu.",
+    "PrimFloat.", "PrimInt63.", "Uint63.", "Sint63.", "FloatAxioms.", "FloatOps.", "Uint63Axioms.", "PArray.", "CyclicAxioms.",
 )
 
 
 def foreign_axioms(blocks: dict[str, list[str]]) -> list[str]:
-    """axioms that are not recognisably the standard library's (or kernel primitives)"""
+    """axioms that are not the standard library's (whitelist by defining module)"""
     bad = []
     for thm, axs in blocks.items():
         for a in axs:
-            if a.startswith("RV.") or a == "<unparsed>":
+            if not a.startswith(STDLIB_AXIOM_MODULES):
                 bad.append(f"{thm}: {a}")
     return bad
 
@@ -385,6 +397,10 @@ def _jsonable(x):
     except Exception:
         pass
     return repr(x)
+
+
+# properties whose module does not define matches_known() yet (being added); to be emptied
+KNOWN_TAG_ONLY_TRANSITIONAL = {"C02", "C03", "C11", "C15", "C17"}
 
 
 def load_known(prop: str) -> list[dict]:
@@ -512,8 +528,15 @@ def run_property(mod, tier: str, seed: int, replay: str | None = None) -> int:
     for v in res.violations:
         kid = v["replay"].get("finding")
         match = next((k for k in known_active if k["id"] == kid), None)
-        if match is not None and hasattr(mod, "matches_known") and not mod.matches_known(v, match):
-            match = None
+        if match is not None:
+            if not hasattr(mod, "matches_known") and prop in KNOWN_TAG_ONLY_TRANSITIONAL:
+                res.notes.append(f"violation tagged {kid} accepted on its tag alone (matches_known() not yet defined for {prop})")
+            elif not hasattr(mod, "matches_known"):
+                # a tag alone must not absorb a violation: the property module has to say that THIS failure is the recorded one
+                match = None
+                res.notes.append(f"violation tagged {kid} but props module defines no matches_known(): treated as unlisted")
+            elif not mod.matches_known(v, match):
+                match = None
         if match is not None:
             res.known_hits.append({"id": match["id"], "what": match["what"]})
         else:
